@@ -2,6 +2,15 @@
 HOOK_COMMITS = ["645c65a", "e34ba59", "f51c5d9", "f6ed18e", "079d75a", "f4d99a1"]
 NOT_APPLICABLE = {}
 LEVELS = {
+    "C05": {
+        "text": "Proof (partial): every index, slice and unchecked type assertion on message-derived data in the gossip-processing files "
+                "is listed from the source on each run and shown panic-free under its guard for all inputs (C05_sites_pinned, "
+                "C05_all_classified, C05_total_*). Not proved, only searched for by the differential run over all node flavours and "
+                "topics: panics inside third-party decoders, hangs (2 s bound) and unbounded allocation (64 MiB bound).",
+        "design_ref": "DESIGN.md §4 C05",
+        "note": "Trusted: Lean kernel; the go/ast site extractor; my guard classification; noderig. Hang/allocation: testing-grade only.",
+        "technique": "Lean 4 theorems over partial index/assertion operations, pinned to a regenerated list of sites + structure-aware differential search over all handler stacks",
+    },
     "C04": {
         "text": "Proof: C04_shares_iff and C04_keys_iff are IFF characterisations of the combined gossip validators (envelope check + "
                 "handler validator) for every receiver database, configuration and message, clause by clause as the property states them; "
